@@ -6,7 +6,7 @@ import msuite
 PID = 'C16'
 TAGS = ['cbegin', 'collected', 'fbegin', 'got', 'fend', 'fabort', 'tfin', 'ret', 'caught', 'log']
 RULE = ('collect(..) / `async for .. in first(.., count=k)` over 0-5 activities, each a few sleeps (durations 0, 1/2, 1, 2, 3 with '
-        'ties), log statements after every sleep, sometimes a nested scope with a child that outlasts its body, and a result or a failure (KeyError / IndexError / a privileged AssertionError); '
+        'ties), log statements after every sleep, sometimes inside `async with lock` or followed by `await queue` (a message may or may not come), sometimes a nested scope with a child that outlasts its body, and a result or a failure (KeyError / IndexError / a privileged AssertionError); '
         'count none, 0..n+1; consumer bodies that log, sleep (slow consumer) or break after m results; the caller runs as a root '
         'activity, inside an until()-scope with a deadline, or in a child task that is cancelled at a chosen time; several '
         'callers side by side; every program ends with a long sleep so that code of aborted activities would be seen. '
@@ -21,9 +21,15 @@ NESTED = [0]
 def activity(rng, i, fail_p):
     prog = []
     for j in range(rng.randint(1, 3)):
-        prog.append(['sleep', rng.choice(DUR)])
+        step = [['sleep', rng.choice(DUR)]]
         if rng.random() < 0.6:
-            prog.append(['log', 100 + 10 * i + j])
+            step.append(['log', 100 + 10 * i + j])
+        k = rng.random()
+        if k < 0.15:
+            step = [['lock', 0] + step]          # (aborted while it holds a lock / while it queues for one)
+        elif k < 0.25:
+            step = step + [['qget', 0]]          # (aborted while it waits for a message that may never come)
+        prog += step
     if rng.random() < 0.2:
         # an activity with parts of its own: a scope whose child outlasts the body, so that the activity waits at the end of
         # the block - aborting the activity must abort the parts, too
@@ -85,7 +91,9 @@ def family(rng):
     ntask = [0]
     NESTED[0] = 0
     roots = [caller(rng, i, ntask) for i in range(rng.choice([1, 1, 1, 2, 3]))]
-    return ['scenario', ['debug', 1], ['start', rng.choice([0, 0, 1])], ['flags', 1], ['locks', 0], ['roots'] + roots]
+    if rng.random() < 0.4:
+        roots.append(['prog', ['sleep', rng.choice([F(1, 2), 1, 2, 4])], ['qput', 0, 1]] + ([['qput', 0, 2]] if rng.random() < 0.5 else []))
+    return ['scenario', ['debug', 1], ['start', rng.choice([0, 0, 1])], ['flags', 1], ['locks', 1], ['queues', 1], ['roots'] + roots]
 
 
 def nontrivial(impl):
